@@ -55,6 +55,9 @@ def build_value(v):
             return build(v)
         if "l" in v:
             return [build_value(x) for x in v["l"]]
+        if "S" in v:
+            # a mutable Python set, as ODLParser returns for {...}
+            return set(v["S"])
         if "q" in v:
             # a value with units whose value is a sequence: a = (1, 2) <m>
             from pvl.collections import Quantity
@@ -79,6 +82,8 @@ def snap(x):
         return ("L", [snap(i) for i in x])
     if isinstance(x, tuple) and hasattr(x, "units"):
         return ("Q", type(x).__name__, snap(x.value), snap(x.units))
+    if isinstance(x, (set, frozenset)):
+        return ("S", type(x).__name__, sorted(repr(i) for i in x))
     return ("V", type(x).__name__, repr(x))
 
 
@@ -111,7 +116,7 @@ def container_paths(spec, prefix=()):
         if isinstance(v, dict) and "c" in v:
             out.append((prefix + (i,), "c"))
             out += container_paths(v, prefix + (i,))
-        elif isinstance(v, dict) and ("l" in v or "q" in v):
+        elif isinstance(v, dict) and ("l" in v or "q" in v or "S" in v):
             out.append((prefix + (i,), "l"))
     return out
 
@@ -170,6 +175,8 @@ def _run_case(case):
         op = tuple(c10._norm(op))
         if isinstance(target, list):
             target.append(("mut", step))
+        elif isinstance(target, set):
+            target.add(("mut", step))
         else:
             try:
                 c10.apply_real(target, op, type(target))
@@ -204,7 +211,8 @@ def spec_strategy():
     scalar = st.one_of(st.integers(0, 3), st.sampled_from(["s", None, 1.5, True]))
     lst = st.one_of(st.lists(scalar, max_size=3).map(lambda l: {"l": l}),
                     st.lists(scalar, max_size=3).map(lambda l: {"l": l}),
-                    st.lists(st.integers(0, 3), max_size=3).map(lambda l: {"q": l}))
+                    st.lists(st.integers(0, 3), max_size=3).map(lambda l: {"q": l}),
+                    st.lists(st.integers(0, 3), max_size=3).map(lambda l: {"S": l}))
     clsname = st.sampled_from(["OrderedMultiDict", "PVLModule", "PVLGroup",
                                "PVLObject"])
 
